@@ -162,6 +162,12 @@ def St.apply (st : St) (r : Except Errno (FS × Mut)) : Step :=
   | .error e => (st, some e)
   | .ok (fs', m) => ({ st with fs := fs', log := st.log ++ [m] }, none)
 
+/-- sequencing: continue with `f` unless the step was aborted by an error -/
+def Step.andThen (r : Step) (f : St → Step) : Step :=
+  match r with
+  | (st1, none) => f st1
+  | r => r
+
 /-! ### verify_leading_dirs -/
 
 /-- `common`: length of the longest common prefix of the cache and the leading components -/
@@ -200,9 +206,7 @@ def deepestExisting (fs : FS) (root : PPath) (lead : List Name) : Nat → Nat
 def mkdirsUp (root : PPath) (lead : List Name) : Nat → Nat → St → Step
   | _, 0, st => (st, none)
   | i, count + 1, st =>
-    match st.apply (sysMkdir st.fs root (lead.take (i + 1))) with
-    | (st', none) => mkdirsUp root lead (i + 1) count st'
-    | r => r
+    (st.apply (sysMkdir st.fs root (lead.take (i + 1)))).andThen (mkdirsUp root lead (i + 1) count)
 
 /-- `os.makedirs(root/lead)` when `not os.path.exists(root/lead)` -/
 def makedirs (root : PPath) (lead : List Name) (st : St) : Step :=
@@ -220,37 +224,37 @@ structure Entry where
 def isLnkMode (m : Nat) : Bool := sIfmt m = 0o120000
 def isGitlinkMode (m : Nat) : Bool := sIfmt m = 0o160000
 
+/-- `open(path, "wb")`, write, close, `os.chmod(path, cleanup_mode(mode))` -/
+def writeAndChmod (root : PPath) (comps : List Name) (mode : Nat) (content : Bytes) (st : St) : Step :=
+  (st.apply (sysOpenWrite st.fs content root comps)).andThen fun st1 =>
+    st1.apply (sysChmod st1.fs (cleanupMode mode) root comps)
+
 /-- `build_file_from_blob(blob, mode, root/comps, honor_filemode=True)` -/
 def buildFileFromBlob (root : PPath) (comps : List Name) (mode : Nat) (content : Bytes) (st : St) : Step :=
   match lstat st.fs root comps with
   | .error .enoent =>
     if isLnkMode mode then st.apply (sysSymlink st.fs content root comps)
-    else
-      match st.apply (sysOpenWrite st.fs content root comps) with
-      | (st1, none) => st1.apply (sysChmod st1.fs (cleanupMode mode) root comps)
-      | r => r
+    else writeAndChmod root comps mode content st
   | .error e => (st, some e)
   | .ok old =>
     if isLnkMode mode then
-      match st.apply (sysUnlink st.fs root comps) with
-      | (st1, none) => st1.apply (sysSymlink st1.fs content root comps)
-      | r => r
+      (st.apply (sysUnlink st.fs root comps)).andThen fun st1 => st1.apply (sysSymlink st1.fs content root comps)
     else
       match old with
       | .link _ =>
-        match st.apply (sysUnlink st.fs root comps) with
-        | (st1, none) =>
-          (match st1.apply (sysOpenWrite st1.fs content root comps) with
-           | (st2, none) => st2.apply (sysChmod st2.fs (cleanupMode mode) root comps)
-           | r => r)
-        | r => r
+        (st.apply (sysUnlink st.fs root comps)).andThen (writeAndChmod root comps mode content)
       | .dir => (st, some .eisdir)      -- open(dir, "rb"/"wb") fails either way
       | .file c _ =>
         if c = content then (st, none)  -- same size, same bytes: `return oldstat`
-        else
-          match st.apply (sysOpenWrite st.fs content root comps) with
-          | (st1, none) => st1.apply (sysChmod st1.fs (cleanupMode mode) root comps)
-          | r => r
+        else writeAndChmod root comps mode content st
+
+/-- gitlink entry: `if not os.path.isdir(full_path): os.mkdir(full_path)` -/
+def buildGitlink (root : PPath) (comps : List Name) (st : St) : Step :=
+  if isdir st.fs root comps then (st, none) else st.apply (sysMkdir st.fs root comps)
+
+/-- `if not os.path.exists(dirname): os.makedirs(dirname)` -/
+def ensureParent (root : PPath) (lead : List Name) (st : St) : Step :=
+  if exists_ st.fs root lead then (st, none) else makedirs root lead st
 
 /-- one iteration of the `for entry in iter_tree_contents(...)` loop -/
 def processEntry (v : Bytes → Bool) (root : PPath) (e : Entry) (st : St) : Step :=
@@ -260,23 +264,14 @@ def processEntry (v : Bytes → Bool) (root : PPath) (e : Entry) (st : St) : Ste
     match verifyLeadingDirs st.fs root comps st.safe with
     | .error err => (st, some err)
     | .ok safe' =>
-      let st := { st with safe := safe' }
-      let lead := comps.dropLast
-      let r : Step := if exists_ st.fs root lead then (st, none) else makedirs root lead st
-      match r with
-      | (st1, none) =>
-        if isGitlinkMode e.mode then
-          if isdir st1.fs root comps then (st1, none) else st1.apply (sysMkdir st1.fs root comps)
+      (ensureParent root comps.dropLast { st with safe := safe' }).andThen fun st1 =>
+        if isGitlinkMode e.mode then buildGitlink root comps st1
         else buildFileFromBlob root comps e.mode e.content st1
-      | r => r
 
 /-- the loop: stops at the first error, "leaving any files already written in place" -/
 def runEntries (v : Bytes → Bool) (root : PPath) : List Entry → St → Step
   | [], st => (st, none)
-  | e :: es, st =>
-    match processEntry v root e st with
-    | (st', none) => runEntries v root es st'
-    | r => r
+  | e :: es, st => (processEntry v root e st).andThen (runEntries v root es)
 
 /-- `build_index_from_tree(root, …, validate_path_element=v)` on the entries of the tree, from file system `fs` -/
 def buildIndexFromTree (v : Bytes → Bool) (root : PPath) (entries : List Entry) (fs : FS) : Step :=
